@@ -6,6 +6,7 @@ package an
 import (
 	"fmt"
 	"go/ast"
+	"go/constant"
 	"go/token"
 	"go/types"
 	"os"
@@ -151,6 +152,14 @@ func Load(conf Config) (*Prog, error) {
 	sort.Slice(p.Pkgs, func(i, j int) bool { return p.Pkgs[i].PkgPath < p.Pkgs[j].PkgPath })
 	if len(p.Pkgs) < 40 {
 		return nil, fmt.Errorf("load: only %d module packages loaded (expected >= 40)", len(p.Pkgs))
+	}
+	if ep := p.ByRel["errors"]; ep != nil {
+		sc := ep.Types.Scope()
+		for _, n := range sc.Names() {
+			if c, ok := sc.Lookup(n).(*types.Const); ok && c.Val().Kind() == constant.String {
+				errConstNames[constant.StringVal(c.Val())] = n
+			}
+		}
 	}
 	p.All = ssautil.AllFunctions(prog)
 	for fn := range p.All {
